@@ -51,6 +51,10 @@ mod heads;
 mod keys;
 mod ranger;
 
+#[cfg(feature = "verif")]
+#[allow(missing_docs)]
+pub mod verif;
+
 #[doc(inline)]
 pub use net::ALPN;
 
